@@ -274,7 +274,7 @@ fn build_wire(segs: &[Seg]) -> WireCase {
 
 fn wire_strategy() -> impl Strategy<Value = WireCase> {
     // caret-free printable ASCII
-    let ascii = (0x20u8..0x7F).prop_filter("no caret", |b| *b != b'^');
+    let ascii = (0x20u8..0x7E).prop_map(|b| if b == b'^' { b'~' } else { b });
     let item = prop_oneof![
         6 => any::<Index>().prop_map(Item::Entry),
         3 => any::<Index>().prop_map(Item::CaretTrail),
@@ -418,7 +418,7 @@ fn text_strategy(maxlen: usize) -> impl Strategy<Value = String> {
     let rep = cp::repertoire();
     let tables = cp::tables();
     let ch = prop_oneof![
-        3 => (0x20u8..0x7F).prop_filter("no caret", |b| *b != b'^').prop_map(|b| b as char),
+        3 => (0x20u8..0x7E).prop_map(|b| if b == b'^' { '~' } else { b as char }),
         // uniformly from one codepage (so small codepages are not drowned by CJK)
         6 => (0..tables.len(), any::<Index>()).prop_map(move |(t, ix)| {
             let e = &tables[t].entries;
